@@ -159,7 +159,7 @@ def c08_runs(tier):
 
 
 def c04_runs(tier):
-    runs = [("main", ["--mode", "grid", "--mtu", "1500"])]
+    runs = [("main", ["--mode", "grid", "--mtu", "1500"]), ("uchar", ["--mode", "gridu", "--mtu", "1500"])]
     if tier == "thorough":
         runs.append(("main", ["--mode", "grid", "--mtu", "576"]))
         for i in range(16):
@@ -286,6 +286,7 @@ PROPS = {
     "C04": {
         "engine": "sweep",
         "builds": {"main": {"sources": MC + ["checks/c04.c"], "modes": ["grid", "full"]},
+                   "uchar": {"sources": MC + ["checks/c04.c"], "core_defs": ["-funsigned-char"], "modes": ["gridu"]},      # ABI with unsigned plain char
                    "linux": {"sources": ["mc/report.c", "checks/c04_linux.c"], "core": [], "repo_extra": ["os/linux/lltd_port.c"],
                              "repo_extra_flags": ["-I", "/repo/os/linux", "-DLINUX"], "defs": ["-DVF_LINUX_MAIN_H=\"/repo/os/linux/daemon/linux-main.h\""], "modes": ["linux"]}},
         "runs": c04_runs, "level": "exploration",
